@@ -20,7 +20,7 @@ import (
 func init() { register("C11", "exploration", runC11) }
 
 func runC11(r *ev.Run) {
-	r.SetRule("a gluon server runs in a child process with no panic handler (a panic kills it, as in production). Hostile connections (before LOGIN, logged in, with a mailbox selected) send: grammar-generated valid commands, byte-level mutations of them (flips, cuts, inserted parens/braces/quotes/NUL/8-bit, huge numbers), numbers at the edges of int32/uint32/int64/uint64 in every numeric position, lines sent behind a LOGOUT or behind the 20th consecutive error, complete APPENDs of messages whose address, date and MIME header fields end inside comments, quotes, brackets, groups, encoded words or nest thousands deep, hand-written extremes (10^4-fold nesting, 2^32 and 2^64 numbers in sets, partials and literal sizes, 1 MiB atoms, thousands of empty lines, tag-only lines), literals that are announced and then cut off by a disconnect, and batches of pipelined lines. The client follows the protocol for literals (waits for '+'). Oracles: the child stays alive; every line that was completely sent gets exactly one completion (tagged with its tag when the tag is a plain atom, else '* BAD'), checked with a NOOP probe behind it; the connection then still answers NOOP unless the server said BYE after repeated errors; a sentinel session of another user keeps getting the same FETCH answer; after all hostile connections are gone the goroutine count returns to the start level, the heap that is live after a collection stays under 400 MiB (checked whenever RSS passes 700 MiB, hard cap 3 GiB) and ends within 300 MiB of its start and the idle server burns < 1 s CPU in 3 s. distinct = distinct (state, input family, outcome) triples")
+	r.SetRule("a gluon server runs in a child process with no panic handler (a panic kills it, as in production). Hostile connections (before LOGIN, logged in, with a mailbox selected) send: grammar-generated valid commands, byte-level mutations of them (flips, cuts, inserted parens/braces/quotes/NUL/8-bit, huge numbers), numbers at the edges of int32/uint32/int64/uint64 in every numeric position, lines sent behind a LOGOUT or behind the 20th consecutive error, complete APPENDs of messages whose address, date and MIME header fields end inside comments, quotes, brackets, groups, encoded words or nest thousands deep, hand-written extremes (10^4-fold nesting, 2^32 and 2^64 numbers in sets, partials and literal sizes, 1 MiB atoms, thousands of empty lines, tag-only lines), literals that are announced and then cut off by a disconnect, and batches of pipelined lines. The client follows the protocol for literals (waits for '+'). Oracles: the child stays alive; every line that was completely sent gets exactly one completion (tagged with its tag when the tag is a plain atom, else '* BAD'), checked with a NOOP probe behind it; the connection then still answers NOOP unless the server said BYE after repeated errors; a sentinel session of another user keeps getting the same FETCH answer; after all hostile connections are gone the goroutine count returns to the start level, the heap that is live after a collection stays under 400 MiB (checked whenever RSS passes 700 MiB; RSS after the freed memory was handed back to the OS must stay under 3 GiB) and ends within 300 MiB of its start and the idle server burns < 1 s CPU in 3 s. distinct = distinct (state, input family, outcome) triples")
 	r.Assume("lines carry no CR/LF except their terminator and inside literals; 'hang' means no completion within a 60 s watchdog and is reported as inconclusive unless the child is burning CPU or a second try on a fresh connection hangs too")
 
 	conns := r.Pick(400, 6000)
@@ -120,6 +120,10 @@ func runC11(r *ev.Run) {
 				st, err := child.Stats()
 				if err == nil {
 					r.Count("rss_above_700MiB_checked_after_gc", 1)
+
+					// RSS before the collection also holds what the runtime had freed but not yet given back: the cap
+					// applies to what is resident after the memory was returned
+					rss = child.RSSKB()
 
 					if st.HeapAlloc > 400<<20 || rss > 3<<20 {
 						c.violate("C11 memory-grew", fmt.Sprintf("after %d hostile connections the server's live heap is %d MiB after a collection (RSS %d MiB); it started at a few MiB", i+1, st.HeapAlloc>>20, rss/1024))
